@@ -132,10 +132,12 @@ def handleGet1 (st : Store) (s f : String) (suppress : Bool) : Nat → List Stri
   | fuel + 1 =>
     if s == "SYS" && f == "INPNAME" then
       let keys := ((subOf st "SYS").getD []).filter (fun e => e.1.startsWith "INPNAME" && e.1 != "INPNAME")
-      if keys.isEmpty then [UNDEFINED] else keys.flatMap (fun e => (sendStored st s e.1 true).1)
+      let out := keys.flatMap (fun e => (sendStored st s e.1 true).1)
+      if out.isEmpty then [UNDEFINED] else out            -- nothing was sent (no members, or only error markers): one error line
     else if f == "SCENENAME" then
       let keys := ((subOf st s).getD []).filter (fun e => e.1.startsWith "SCENE" && e.1.endsWith "NAME" && e.1 != "SCENENAME")
-      if keys.isEmpty then [UNDEFINED] else keys.flatMap (fun e => (sendStored st s e.1 true).1)
+      let out := keys.flatMap (fun e => (sendStored st s e.1 true).1)
+      if out.isEmpty then [UNDEFINED] else out
     else if f == "DIRMODE" then
       let (out, v) := sendStored st s f suppress
       if v == some "On" then out ++ handleGet1 st s "STRAIGHT" suppress fuel else out
